@@ -830,7 +830,18 @@ pub fn run_ent(toks: &[&str]) -> String {
     let us = e.u8sum().map(|v| v.to_string()).unwrap_or_else(|| "~".to_string());
     // six sinks (C14)
     let sinks = e.with_aml(|a| crate::sinks::all_sinks(a)).unwrap_or_else(|| "~".to_string());
-    format!("{} {} {} {} {}", hex(&a), if a == b { "same" } else { "DIFF" }, ab, us, sinks)
+    // the option-free build of the same constructor arguments (C11's frame condition)
+    let base = if op.o.is_empty() {
+        "~".to_string()
+    } else {
+        let mut op0 = op.clone();
+        op0.o.clear();
+        match std::panic::catch_unwind(std::panic::AssertUnwindSafe(|| { let mut h0 = Handles::default(); build(&op0, &mut h0).ser() })) {
+            Ok(v) => hex(&v),
+            Err(_) => "~".to_string(),
+        }
+    };
+    format!("{} {} {} {} {} {}", hex(&a), if a == b { "same" } else { "DIFF" }, ab, us, sinks, base)
 }
 
 #[allow(dead_code)]
